@@ -5,27 +5,32 @@
    particle copied from the same source row, new temperature and size.
 
    Log-densities live on a lattice: row i has  log L + log pi - log q =
-   k_i * ln 2  with k_i a multiple of 4, temperatures are j/4, so the
-   incremental weight 2^((bt-bf)/4 * k_i) is an exact power of two and the
-   probability vector is an exact rational.  The index vector (the random
+   k_i * ln 2  with k_i a multiple of Den, temperatures are j/Den, so the
+   incremental weight 2^((bt-bf)/Den * k_i) is an exact power of two and the
+   probability vector is an exact rational.  Den = 4 gives the coarse
+   ladder 0, 1/4, ..., 1; Den = 2^21 gives temperature moves of 4.8e-7
+   (the smallest step the adaptive bisection takes) on sharply peaked
+   targets, where the incremental weights are still far from uniform.  The index vector (the random
    stream) is chosen by TLC.  Every case is exported with the expected
    outcome and replayed on the real code with a scripted generator.      *)
 EXTENDS Integers, Sequences, FiniteSets, SequencesExt, FiniteSetsExt, Json, IOUtils, TLC
 
 VARIABLE cur      \* the case under examination (one TLC state per case)
 
-CONSTANTS Ks,        \* admissible exponents (multiples of 4); the value Dead stands for log L = -inf
+CONSTANTS Den,       \* denominator of the temperature lattice
+          Ks,        \* admissible exponents (multiples of Den); the value Dead stands for log L = -inf
                      \* (zero incremental weight: such a row may never be drawn)
           NMin, NMax,
-          Betas,     \* temperatures in quarters, subset of 0..4
+          Betas,     \* temperature numerators, subset of 0..Den
+          MaxMove,   \* largest temperature move bt - bf considered (keeps 2^(d*k/Den) a machine integer)
           MaxIdx     \* cap on index vectors per case (the rest is sampled by hash)
 
-Dead == 99
+Dead == 99                                \* never a multiple of Den
 Pow2(n) == IF n = 0 THEN 1 ELSE 2 ^ n     \* n >= 0
 
-\* weights as integers: 2^(d*k/4 - min)  for d = bt - bf in quarters
+\* weights as integers: 2^(d*k/Den - min)  for d = bt - bf (numerators)
 Live(ks) == {i \in 1..Len(ks) : ks[i] # Dead}
-Expo(ks, d) == [i \in 1..Len(ks) |-> IF ks[i] = Dead THEN 0 ELSE (d * ks[i]) \div 4]
+Expo(ks, d) == [i \in 1..Len(ks) |-> IF ks[i] = Dead THEN 0 ELSE (d * (ks[i] \div Den))]
 MinLive(ks, q) == CHOOSE m \in {q[i] : i \in Live(ks)} : \A i \in Live(ks) : m <= q[i]
 IntW(ks, d) == LET e == Expo(ks, d) m == MinLive(ks, e)
                IN [i \in 1..Len(ks) |-> IF ks[i] = Dead THEN 0 ELSE Pow2(e[i] - m)]
@@ -51,7 +56,7 @@ Cases ==
      { Case(ks, bf, bt, sz, idx) : idx \in Pick(AllIdx(ks, sz)) }
        : sz \in Sizes(Len(ks)) }
        \* a dead row makes the incremental weight 0 * (-inf) undefined when the temperature does not move
-       : bt \in {b \in Betas : b > bf \/ (b = bf /\ Live(ks) = 1..Len(ks))} }
+       : bt \in {b \in Betas : (b > bf /\ b - bf <= MaxMove) \/ (b = bf /\ Live(ks) = 1..Len(ks))} }
        : bf \in Betas }
        : ks \in {q \in UNION {[1..n -> Ks] : n \in NMin..NMax} : Live(q) # {}} }
 
